@@ -3,8 +3,8 @@
    (NV.Generated.JointHist); Model.v adds the loop skeleton. *)
 From Coq Require Import ZArith QArith Qround List Bool Lia Lqa Ring.
 From NV.Lib Require Import C09Base.
-From NV.Generated Require Import JointHist.
-From NV.C09 Require Import Model ModelPy Proofs1 Proofs2 Proofs3 Proofs4 Proofs5 Proofs6 Proofs7.
+From NV.Generated Require Import JointHist OptimizeBook.
+From NV.C09 Require Import Model ModelPy ModelOpt Proofs1 Proofs2 Proofs3 Proofs4 Proofs5 Proofs6 Proofs7.
 Import ListNotations.
 Close Scope Q_scope.
 Open Scope Z_scope.
@@ -323,6 +323,28 @@ Theorem subgrid_affine_spec :
   = app_row R radd rmul r (radd o1 (rmul s1 v1)) (radd o2 (rmul s2 v2)) (radd o3 (rmul s3 v3)).
 Proof. exact sg_row_spec. Qed.
 Print Assumptions subgrid_affine_spec.
+
+(* (20) Optimisation clause, bookkeeping part.  `gen_optimize_binding` is
+   translated from HistogramRegistration.optimize on every run: it says whether
+   the optimiser's return value is written back into the transform
+   (`Tv.param = fmin(...)`) or discarded.  PARTIAL: the optimiser itself is an
+   oracle; ASSUMING its contract "the returned point has cost <= the cost at
+   x0" (sampled by the harness for every optimizer x measure), the transform
+   returned by optimize has similarity >= that of the starting transform.
+   With the result discarded (parameters of the LAST cost evaluation kept) the
+   same contract does not give the clause (second statement). *)
+Theorem optimize_not_worse_partial :
+  forall (P : Type) (sim : P -> Q) (run : (P -> Q) -> P -> list P * P),
+  (forall f x0, (f (snd (run f x0)) <= f x0)%Q) ->
+  forall x0, (sim x0 <= sim (optimize_result P sim run gen_optimize_binding x0))%Q.
+Proof. exact optimize_not_worse. Qed.
+Print Assumptions optimize_not_worse_partial.
+
+Example optimize_in_place_last_can_be_worse :
+  exists (sim : Z -> Q) (run : (Z -> Q) -> Z -> list Z * Z),
+    (forall f x0, (f (snd (run f x0)) <= f x0)%Q) /\
+    (sim (optimize_result Z sim run InPlaceLast 0%Z) < sim 0%Z)%Q.
+Proof. exact in_place_last_can_be_worse. Qed.
 
 (* non-vacuity: a voxel at (1/2, 1/4, 0) in a 2x2x2 target (padded 4x4x4) *)
 Example pv_example :
